@@ -133,3 +133,274 @@ Theorem model_is_source_C07_Sparse : forall A : Arith, @SrcEqSparse.model_is_sou
 Proof. intros A. exact SrcEqSparse.model_is_source_Sparse_lemma. Qed.
 Check model_is_source_C07_Sparse : forall A : Arith, @SrcEqSparse.model_is_source_Sparse A.
 Print Assumptions model_is_source_C07_Sparse.
+(* ======================================================================================================
+   C07 (sparse products), rounding half -- package round.  Append to Props/C07.v.
+   The compressed-sparse-column product "to rounding accuracy", Model/Sparse.v [sp_mul] in the STANDARD MODEL of
+   floating-point arithmetic (the same Gallina [sp_mul] at ARm): fl(A x) = (A + dA) x where dA has the sparsity
+   pattern of A and perturbs every STORED value of row i by a relative amount |th| <= gam m_i, m_i = the number of
+   entries stored in row i ([row_entries s i]: the (column, storage index) pairs of row i in accumulation order).
+   Unproved remainder: the standard model itself for IEEE binary64 (only dot / dense multiply are tied to the
+   primitive-float instance, Props/C15.v and Props/C03.v); transpose_multiply (same loop shape, not stated).
+   ====================================================================================================== *)
+From Coq Require Import Reals Lra Lia.
+From OV Require Import Base.RoundModel Proofs.SparseBase Proofs.RoundDot Proofs.RoundSparse Proofs.RoundFlx Proofs.RoundExamples.
+
+Theorem sp_mul_backward_error : forall (u : R), (0 <= u < 1)%R ->
+  forall (fadd fsub fmul fdiv : R -> R -> R),
+  (forall x y : R, exists d : R, (Rabs d <= u)%R /\ fadd x y = ((x + y) * (1 + d))%R) ->
+  (forall x y : R, exists d : R, (Rabs d <= u)%R /\ fmul x y = (x * y * (1 + d))%R) ->
+  (forall a b : R, fadd 0%R (fmul a b) = fmul a b) ->
+  forall (s : sparse (ARm fadd fsub fmul fdiv)) (x y : list R),
+  wfS s -> sp_mul s x = Ok y ->
+  length y = sp_rows s /\
+  forall i, (i < sp_rows s)%nat -> (INR (length (row_entries s i)) * u < 1)%R ->
+    exists th : nat -> R,
+      (forall t, (t < length (row_entries s i))%nat ->
+         (Rabs (th t) <= gam u (length (row_entries s i)))%R) /\
+      nth i y 0%R = Rsum (length (row_entries s i))
+                      (fun t => (re_val s i t * (1 + th t)
+                                 * nth (re_col s i t) x 0)%R).
+Proof. intros u Hu fadd fsub fmul fdiv Ha Hm H0 s x y. exact (sp_mul_backward_error_lemma u Hu fadd fsub fmul fdiv Ha Hm H0 s x y). Qed.
+Check sp_mul_backward_error : forall (u : R), (0 <= u < 1)%R ->
+  forall (fadd fsub fmul fdiv : R -> R -> R),
+  (forall x y : R, exists d : R, (Rabs d <= u)%R /\ fadd x y = ((x + y) * (1 + d))%R) ->
+  (forall x y : R, exists d : R, (Rabs d <= u)%R /\ fmul x y = (x * y * (1 + d))%R) ->
+  (forall a b : R, fadd 0%R (fmul a b) = fmul a b) ->
+  forall (s : sparse (ARm fadd fsub fmul fdiv)) (x y : list R),
+  wfS s -> sp_mul s x = Ok y ->
+  length y = sp_rows s /\
+  forall i, (i < sp_rows s)%nat -> (INR (length (row_entries s i)) * u < 1)%R ->
+    exists th : nat -> R,
+      (forall t, (t < length (row_entries s i))%nat ->
+         (Rabs (th t) <= gam u (length (row_entries s i)))%R) /\
+      nth i y 0%R = Rsum (length (row_entries s i))
+                      (fun t => (re_val s i t * (1 + th t)
+                                 * nth (re_col s i t) x 0)%R).
+Print Assumptions sp_mul_backward_error.
+(* the 2x2 matrix [[1,0],[2,3]] in compressed-column form times [5,6], in the arithmetic that rounds every operation *)
+Example sp_mul_backward_error_nonvacuous :
+  (0 <= ux < 1)%R /\
+  (forall x y : R, exists d : R, (Rabs d <= ux)%R /\ xadd x y = ((x + y) * (1 + d))%R) /\
+  (forall x y : R, exists d : R, (Rabs d <= ux)%R /\ xmul x y = (x * y * (1 + d))%R) /\
+  (forall a b : R, xadd 0%R (xmul a b) = xmul a b) /\
+  wfS ex_sp /\ (exists y, sp_mul ex_sp [5%R; 6%R] = Ok y) /\
+  (forall i, (i < sp_rows ex_sp)%nat -> (INR (length (row_entries ex_sp i)) * ux < 1)%R) /\
+  length (row_entries ex_sp 1) = 2%nat.
+Proof.
+  split; [exact ux_range|]. split; [exact xadd_ok|]. split; [exact xmul_ok|]. split; [exact xadd_0_mul|].
+  split; [exact ex_sp_wf|]. split; [eexists; reflexivity|]. split; [exact ex_sp_rows|reflexivity].
+Qed.
+
+Theorem sp_mul_forward_error : forall (u : R), (0 <= u < 1)%R ->
+  forall (fadd fsub fmul fdiv : R -> R -> R),
+  (forall x y : R, exists d : R, (Rabs d <= u)%R /\ fadd x y = ((x + y) * (1 + d))%R) ->
+  (forall x y : R, exists d : R, (Rabs d <= u)%R /\ fmul x y = (x * y * (1 + d))%R) ->
+  (forall a b : R, fadd 0%R (fmul a b) = fmul a b) ->
+  forall (s : sparse (ARm fadd fsub fmul fdiv)) (x y : list R),
+  wfS s -> sp_mul s x = Ok y ->
+  forall i, (i < sp_rows s)%nat -> (INR (length (row_entries s i)) * u < 1)%R ->
+    (Rabs (nth i y 0 - Rsum (length (row_entries s i))
+                         (fun t => re_val s i t * nth (re_col s i t) x 0))
+       <= gam u (length (row_entries s i))
+          * Rsum (length (row_entries s i))
+              (fun t => Rabs (re_val s i t) * Rabs (nth (re_col s i t) x 0)))%R.
+Proof. intros u Hu fadd fsub fmul fdiv Ha Hm H0 s x y. exact (sp_mul_forward_error_lemma u Hu fadd fsub fmul fdiv Ha Hm H0 s x y). Qed.
+Check sp_mul_forward_error : forall (u : R), (0 <= u < 1)%R ->
+  forall (fadd fsub fmul fdiv : R -> R -> R),
+  (forall x y : R, exists d : R, (Rabs d <= u)%R /\ fadd x y = ((x + y) * (1 + d))%R) ->
+  (forall x y : R, exists d : R, (Rabs d <= u)%R /\ fmul x y = (x * y * (1 + d))%R) ->
+  (forall a b : R, fadd 0%R (fmul a b) = fmul a b) ->
+  forall (s : sparse (ARm fadd fsub fmul fdiv)) (x y : list R),
+  wfS s -> sp_mul s x = Ok y ->
+  forall i, (i < sp_rows s)%nat -> (INR (length (row_entries s i)) * u < 1)%R ->
+    (Rabs (nth i y 0 - Rsum (length (row_entries s i))
+                         (fun t => re_val s i t * nth (re_col s i t) x 0))
+       <= gam u (length (row_entries s i))
+          * Rsum (length (row_entries s i))
+              (fun t => Rabs (re_val s i t) * Rabs (nth (re_col s i t) x 0)))%R.
+Print Assumptions sp_mul_forward_error.
+Example sp_mul_forward_error_nonvacuous :   (* same instance *)
+  (0 <= ux < 1)%R /\ wfS ex_sp /\ (exists y, sp_mul ex_sp [5%R; 6%R] = Ok y) /\
+  (forall i, (i < sp_rows ex_sp)%nat -> (INR (length (row_entries ex_sp i)) * ux < 1)%R).
+Proof. split; [exact ux_range|]. split; [exact ex_sp_wf|]. split; [eexists; reflexivity|exact ex_sp_rows]. Qed.
+
+(* ---- the same at the PRIMITIVE-FLOAT instance (IEEE binary64, u = 2^-53), through Flocq: for every finite component
+   of the result whose products do not underflow; no hypothesis about rounding remains ---- *)
+From Coq Require Import Floats.
+From OV Require Import Inst.FloatInst Proofs.ComplexRound Proofs.RoundDotFloat.
+
+Theorem sp_mul_backward_error_float : forall (s : sparse AF) (x y : list PrimFloat.float),
+  wfS s -> sp_mul (A := AF) s x = Ok y ->
+  length y = sp_rows s /\
+  forall i, (i < sp_rows s)%nat -> ffinite (nth i y 0%float) ->
+    (forall t, (t < length (row_entries s i))%nat ->
+       no_underflow (FR (re_val s i t) * FR (nth (re_col s i t) x 0%float))%R) ->
+    (INR (length (row_entries s i)) * u64 < 1)%R ->
+    exists th : nat -> R,
+      (forall t, (t < length (row_entries s i))%nat -> (Rabs (th t) <= g64 (length (row_entries s i)))%R) /\
+      FR (nth i y 0%float) = Rsum (length (row_entries s i))
+                               (fun t => (FR (re_val s i t) * (1 + th t) * FR (nth (re_col s i t) x 0%float))%R).
+Proof. exact sp_mul_backward_error_float_lemma. Qed.
+Check sp_mul_backward_error_float : forall (s : sparse AF) (x y : list PrimFloat.float),
+  wfS s -> sp_mul (A := AF) s x = Ok y ->
+  length y = sp_rows s /\
+  forall i, (i < sp_rows s)%nat -> ffinite (nth i y 0%float) ->
+    (forall t, (t < length (row_entries s i))%nat ->
+       no_underflow (FR (re_val s i t) * FR (nth (re_col s i t) x 0%float))%R) ->
+    (INR (length (row_entries s i)) * u64 < 1)%R ->
+    exists th : nat -> R,
+      (forall t, (t < length (row_entries s i))%nat -> (Rabs (th t) <= g64 (length (row_entries s i)))%R) /\
+      FR (nth i y 0%float) = Rsum (length (row_entries s i))
+                               (fun t => (FR (re_val s i t) * (1 + th t) * FR (nth (re_col s i t) x 0%float))%R).
+Print Assumptions sp_mul_backward_error_float.
+(* [[1.5,0],[2,3]] in compressed-column form times [3,4] in binary64; row 1 accumulates two products *)
+Example sp_mul_backward_error_float_nonvacuous :
+  let s := @mkS AF 2 2 3 [1.5%float; 2%float; 3%float] [0%nat; 1%nat; 1%nat] [0%nat; 2%nat; 3%nat] in
+  let x := [3%float; 4%float] in
+  wfS s /\ exists y, sp_mul (A := AF) s x = Ok y /\ ffinite (nth 1 y 0%float) /\
+    (forall t, (t < length (row_entries s 1))%nat ->
+       no_underflow (FR (re_val s 1 t) * FR (nth (re_col s 1 t) x 0%float))%R) /\
+    (INR (length (row_entries s 1)) * u64 < 1)%R /\ length (row_entries s 1) = 2%nat.
+Proof.
+  cbn zeta. split.
+  { unfold wfS; cbn. repeat split; try reflexivity.
+    - intros [|[|j]] Hj; cbn; lia.
+    - intros [|[|[|k]]] Hk; cbn; lia. }
+  eexists. split; [vm_compute; reflexivity|]. split; [apply ffinite_SF; reflexivity|].
+  assert (E2 : FR 2%float = 2%R) by fr_eval. assert (E3 : FR 3%float = 3%R) by fr_eval.
+  assert (E4 : FR 4%float = 4%R) by fr_eval.
+  split; [|split; [cbn; pose proof u64_small; lra|reflexivity]].
+  intros [|[|t]] Ht; cbn in Ht; try lia; unfold re_val, re_col; cbn -[FR]; rewrite ?E2, ?E3, ?E4;
+    apply no_underflow_ge1; rewrite Rabs_pos_eq; lra.
+Qed.
+
+(* ---- the dense formulation: fl(A x) = (A + dA) x, |dA| <= gam |A| componentwise ----
+   sp_rentry s i j = the (i,j) entry the structure denotes over the reals (sum of the stored values of row i that sit in
+   column j), sp_rabs s i j = the sum of their absolute values; the two agree in absolute value when no position of the
+   row is stored twice (sp_rabs_nodup). *)
+From OV Require Import Proofs.RoundSparseDense.
+
+Theorem sp_mul_dense_backward_error : forall (u : R), (0 <= u < 1)%R ->
+  forall (fadd fsub fmul fdiv : R -> R -> R),
+  (forall x y : R, exists d : R, (Rabs d <= u)%R /\ fadd x y = ((x + y) * (1 + d))%R) ->
+  (forall x y : R, exists d : R, (Rabs d <= u)%R /\ fmul x y = (x * y * (1 + d))%R) ->
+  (forall a b : R, fadd 0%R (fmul a b) = fmul a b) ->
+  forall (s : sparse (ARm fadd fsub fmul fdiv)) (x y : list R),
+  wfS s -> sp_mul s x = Ok y ->
+  length y = sp_rows s /\
+  exists dA : nat -> nat -> R,
+    forall i, (i < sp_rows s)%nat -> (INR (length (row_entries s i)) * u < 1)%R ->
+      (forall j, (j < sp_cols s)%nat ->
+         (Rabs (dA i j) <= gam u (length (row_entries s i)) * sp_rabs fadd fsub fmul fdiv s i j)%R) /\
+      nth i y 0%R = Rsum (sp_cols s) (fun j => ((sp_rentry fadd fsub fmul fdiv s i j + dA i j) * nth j x 0)%R).
+Proof. intros u Hu fadd fsub fmul fdiv Ha Hm H0 s x y. exact (sp_mul_dense_backward_error_lemma u Hu fadd fsub fmul fdiv Ha Hm H0 s x y). Qed.
+Check sp_mul_dense_backward_error : forall (u : R), (0 <= u < 1)%R ->
+  forall (fadd fsub fmul fdiv : R -> R -> R),
+  (forall x y : R, exists d : R, (Rabs d <= u)%R /\ fadd x y = ((x + y) * (1 + d))%R) ->
+  (forall x y : R, exists d : R, (Rabs d <= u)%R /\ fmul x y = (x * y * (1 + d))%R) ->
+  (forall a b : R, fadd 0%R (fmul a b) = fmul a b) ->
+  forall (s : sparse (ARm fadd fsub fmul fdiv)) (x y : list R),
+  wfS s -> sp_mul s x = Ok y ->
+  length y = sp_rows s /\
+  exists dA : nat -> nat -> R,
+    forall i, (i < sp_rows s)%nat -> (INR (length (row_entries s i)) * u < 1)%R ->
+      (forall j, (j < sp_cols s)%nat ->
+         (Rabs (dA i j) <= gam u (length (row_entries s i)) * sp_rabs fadd fsub fmul fdiv s i j)%R) /\
+      nth i y 0%R = Rsum (sp_cols s) (fun j => ((sp_rentry fadd fsub fmul fdiv s i j + dA i j) * nth j x 0)%R).
+Print Assumptions sp_mul_dense_backward_error.
+Example sp_mul_dense_backward_error_nonvacuous :   (* the instance of sp_mul_backward_error_nonvacuous; its rows store no position twice *)
+  (0 <= ux < 1)%R /\ wfS ex_sp /\ (exists y, sp_mul ex_sp [5%R; 6%R] = Ok y) /\
+  (forall i, (i < sp_rows ex_sp)%nat -> (INR (length (row_entries ex_sp i)) * ux < 1)%R) /\
+  (forall i, (i < sp_rows ex_sp)%nat -> row_nodup xadd xsub xmul xdiv ex_sp i).
+Proof.
+  split; [exact ux_range|]. split; [exact ex_sp_wf|]. split; [eexists; reflexivity|]. split; [exact ex_sp_rows|].
+  intros [|[|i]] Hi; cbn in Hi; try lia; intros t t' Ht Ht'; cbn in Ht, Ht'.
+  - assert (t = 0%nat) by lia. assert (t' = 0%nat) by lia. congruence.
+  - destruct t as [|[|t]], t' as [|[|t']]; try lia; cbn; intros E; try reflexivity; discriminate.
+Qed.
+
+(* ---- transpose_multiply (sp_tmul): the gather loop, standard model and primitive floats ----
+   [col_entries s j] lists the (column, storage index) pairs of column j in storage order; every stored value of
+   column j is perturbed relatively by at most gam c_j, c_j = the number of entries stored in column j. *)
+From OV Require Import Proofs.RoundSparseT.
+
+Theorem sp_tmul_backward_error : forall (u : R), (0 <= u < 1)%R ->
+  forall (fadd fsub fmul fdiv : R -> R -> R),
+  (forall x y : R, exists d : R, (Rabs d <= u)%R /\ fadd x y = ((x + y) * (1 + d))%R) ->
+  (forall x y : R, exists d : R, (Rabs d <= u)%R /\ fmul x y = (x * y * (1 + d))%R) ->
+  (forall a b : R, fadd 0%R (fmul a b) = fmul a b) ->
+  forall (s : sparse (ARm fadd fsub fmul fdiv)) (x y : list R),
+  wfS s -> sp_tmul s x = Ok y ->
+  length y = sp_cols s /\
+  forall j, (j < sp_cols s)%nat -> (INR (length (col_entries s j)) * u < 1)%R ->
+    exists th : nat -> R,
+      (forall t, (t < length (col_entries s j))%nat -> (Rabs (th t) <= gam u (length (col_entries s j)))%R) /\
+      nth j y 0%R = Rsum (length (col_entries s j))
+                      (fun t => (ce_val s j t * (1 + th t) * nth (ce_row s j t) x 0)%R).
+Proof. intros u Hu fadd fsub fmul fdiv Ha Hm H0 s x y. exact (sp_tmul_backward_error_lemma u Hu fadd fsub fmul fdiv Ha Hm H0 s x y). Qed.
+Check sp_tmul_backward_error : forall (u : R), (0 <= u < 1)%R ->
+  forall (fadd fsub fmul fdiv : R -> R -> R),
+  (forall x y : R, exists d : R, (Rabs d <= u)%R /\ fadd x y = ((x + y) * (1 + d))%R) ->
+  (forall x y : R, exists d : R, (Rabs d <= u)%R /\ fmul x y = (x * y * (1 + d))%R) ->
+  (forall a b : R, fadd 0%R (fmul a b) = fmul a b) ->
+  forall (s : sparse (ARm fadd fsub fmul fdiv)) (x y : list R),
+  wfS s -> sp_tmul s x = Ok y ->
+  length y = sp_cols s /\
+  forall j, (j < sp_cols s)%nat -> (INR (length (col_entries s j)) * u < 1)%R ->
+    exists th : nat -> R,
+      (forall t, (t < length (col_entries s j))%nat -> (Rabs (th t) <= gam u (length (col_entries s j)))%R) /\
+      nth j y 0%R = Rsum (length (col_entries s j))
+                      (fun t => (ce_val s j t * (1 + th t) * nth (ce_row s j t) x 0)%R).
+Print Assumptions sp_tmul_backward_error.
+Example sp_tmul_backward_error_nonvacuous :   (* the matrix of sp_mul_backward_error_nonvacuous, transposed product with [5,6] *)
+  (0 <= ux < 1)%R /\ wfS ex_sp /\ (exists y, sp_tmul ex_sp [5%R; 6%R] = Ok y) /\
+  (forall j, (j < sp_cols ex_sp)%nat -> (INR (length (col_entries ex_sp j)) * ux < 1)%R) /\
+  length (col_entries ex_sp 0) = 2%nat.
+Proof.
+  split; [exact ux_range|]. split; [exact ex_sp_wf|]. split; [eexists; reflexivity|]. split; [|reflexivity].
+  intros [|[|j]] Hj; cbn in Hj; try lia; cbn; pose proof ux_small; lra.
+Qed.
+
+Theorem sp_tmul_backward_error_float : forall (s : sparse AF) (x y : list PrimFloat.float),
+  wfS s -> sp_tmul (A := AF) s x = Ok y ->
+  length y = sp_cols s /\
+  forall j, (j < sp_cols s)%nat -> ffinite (nth j y 0%float) ->
+    (forall t, (t < length (col_entries s j))%nat ->
+       no_underflow (FR (ce_val s j t) * FR (nth (ce_row s j t) x 0%float))%R) ->
+    (INR (length (col_entries s j)) * u64 < 1)%R ->
+    exists th : nat -> R,
+      (forall t, (t < length (col_entries s j))%nat -> (Rabs (th t) <= g64 (length (col_entries s j)))%R) /\
+      FR (nth j y 0%float) = Rsum (length (col_entries s j))
+                               (fun t => (FR (ce_val s j t) * (1 + th t) * FR (nth (ce_row s j t) x 0%float))%R).
+Proof. exact sp_tmul_backward_error_float_lemma. Qed.
+Check sp_tmul_backward_error_float : forall (s : sparse AF) (x y : list PrimFloat.float),
+  wfS s -> sp_tmul (A := AF) s x = Ok y ->
+  length y = sp_cols s /\
+  forall j, (j < sp_cols s)%nat -> ffinite (nth j y 0%float) ->
+    (forall t, (t < length (col_entries s j))%nat ->
+       no_underflow (FR (ce_val s j t) * FR (nth (ce_row s j t) x 0%float))%R) ->
+    (INR (length (col_entries s j)) * u64 < 1)%R ->
+    exists th : nat -> R,
+      (forall t, (t < length (col_entries s j))%nat -> (Rabs (th t) <= g64 (length (col_entries s j)))%R) /\
+      FR (nth j y 0%float) = Rsum (length (col_entries s j))
+                               (fun t => (FR (ce_val s j t) * (1 + th t) * FR (nth (ce_row s j t) x 0%float))%R).
+Print Assumptions sp_tmul_backward_error_float.
+Example sp_tmul_backward_error_float_nonvacuous :   (* column 0 of [[1.5,0],[2,3]] gathers two products *)
+  let s := @mkS AF 2 2 3 [1.5%float; 2%float; 3%float] [0%nat; 1%nat; 1%nat] [0%nat; 2%nat; 3%nat] in
+  let x := [3%float; 4%float] in
+  wfS s /\ exists y, sp_tmul (A := AF) s x = Ok y /\ ffinite (nth 0 y 0%float) /\
+    (forall t, (t < length (col_entries s 0))%nat ->
+       no_underflow (FR (ce_val s 0 t) * FR (nth (ce_row s 0 t) x 0%float))%R) /\
+    (INR (length (col_entries s 0)) * u64 < 1)%R /\ length (col_entries s 0) = 2%nat.
+Proof.
+  cbn zeta. split.
+  { unfold wfS; cbn. repeat split; try reflexivity.
+    - intros [|[|j]] Hj; cbn; lia.
+    - intros [|[|[|k]]] Hk; cbn; lia. }
+  eexists. split; [vm_compute; reflexivity|]. split; [apply ffinite_SF; reflexivity|].
+  assert (E15 : FR 1.5%float = 1.5%R) by fr_eval. assert (E2 : FR 2%float = 2%R) by fr_eval.
+  assert (E3 : FR 3%float = 3%R) by fr_eval. assert (E4 : FR 4%float = 4%R) by fr_eval.
+  split; [|split; [cbn; pose proof u64_small; lra|reflexivity]].
+  intros [|[|t]] Ht; cbn in Ht; try lia; unfold ce_val, ce_row; cbn -[FR]; rewrite ?E15, ?E2, ?E3, ?E4;
+    apply no_underflow_ge1; rewrite Rabs_pos_eq; lra.
+Qed.
